@@ -17,6 +17,16 @@ ENTRIES = [
     (PROJ, "ProjectiveObject.shape"),
 ]
 
+HYP = "geometry_tools/hyperbolic.py"
+# the "vectorised geometry" the property names (anchors)
+GEOMETRY = [(HYP, q) for q in (
+    "Point.coords", "Point.distance", "Point.origin_to",
+    "Segment._compute_aux_data", "Geodesic.circle_parameters",
+    "Segment.circle_parameters", "HorosphereArc.circle_parameters",
+    "Isometry._fixpoint_data", "Isometry.fixed_point",
+    "Isometry.fixed_point_pair", "TangentVector.origin_to",
+    "Horosphere.intersect_geodesic", "Polygon.regular_polygon")]
+
 
 def run(ctx):
     ctx.do(S.rule_sh1)
@@ -30,7 +40,7 @@ def run(ctx):
                         (PROJ, "ProjectiveObject._construct_from_object"),
                         (PROJ, "Transformation.apply")])
     ctx.do(P.rule_roles, with_inverse=False)
-    ctx.do(u1, ENTRIES, min_functions=10)
+    ctx.do(u1, ENTRIES + GEOMETRY, min_functions=10)
     ctx.r.assume("that the values at each index equal the per-unit result "
                  "of the vectorised geometry is numerical and not decided; "
                  "NumPy shape semantics of expand_dims/squeeze/tile/@/.T are "
